@@ -5,6 +5,8 @@ import (
 	"crypto/ed25519"
 	"errors"
 	"fmt"
+	"os"
+	"path/filepath"
 	"strings"
 	"testing"
 
@@ -239,6 +241,65 @@ func c19Check(c c19Case, st *stats.Run) error {
 	return nil
 }
 
+// through the age command with a terminal: the passphrase of a protected SSH
+// key file is asked for only when the file has a stanza for that key
+type c19CLI struct {
+	Stanzas []string `json:"stanzas"` // A | B | C | X | Acase | Abits
+	Answer  string   `json:"answer"`  // right | wrong
+}
+
+func c19CheckCLI(c c19CLI, st *stats.Run) error {
+	bin := os.Getenv("VERIF_BIN")
+	if bin == "" {
+		return nil
+	}
+	p := hx.ThePool()
+	dir, err := os.MkdirTemp(".", "c19cli-")
+	if err != nil {
+		return pbt.Failf("C19/harness", "%v", err)
+	}
+	dir, _ = filepath.Abs(dir)
+	defer os.RemoveAll(dir)
+	file, plain := c19File(c19Case{Type: "ed25519"}, c19Action{Stanzas: c.Stanzas}, 3)
+	os.WriteFile(filepath.Join(dir, "in.age"), file, 0o644)
+	os.WriteFile(filepath.Join(dir, "id_ed25519"), p.EdEncPEM[0], 0o600)
+	match := has(c.Stanzas, "A")
+	st.Case(len(c.Stanzas) >= 2 || !match, stats.HashJSON(c), "cli", fmt.Sprintf("cli:match=%v", match), "cli:answer="+c.Answer)
+	st.Sample("cli", c)
+	ans := hx.SSHPassphrase
+	if c.Answer == "wrong" {
+		ans = "not the passphrase"
+	}
+	res, tty := c15RunPty(dir, []string{ans}, filepath.Join(bin, "age"), "-d", "-i", "id_ed25519", "-o", "out.dat", "in.age")
+	if res.killed || res.code == -3 {
+		st.Label("inconclusive-pty")
+		return nil
+	}
+	prompts := strings.Count(tty, "passphrase")
+	got, rerr := os.ReadFile(filepath.Join(dir, "out.dat"))
+	switch {
+	case !match:
+		if prompts != 0 {
+			return pbt.Failf("C19/prompt-without-match", "age -d -i <protected ssh key> on a file with stanzas %v (none for that key): the terminal shows a passphrase prompt: %q", c.Stanzas, tty)
+		}
+		if res.code == 0 || rerr == nil {
+			return pbt.Failf("C19/unexpected-success", "age -d -i <protected ssh key> on a file not addressed to it exits %d", res.code)
+		}
+	case c.Answer == "right":
+		if prompts == 0 {
+			return pbt.Failf("C19/no-prompt-for-own-file", "age -d -i <protected ssh key> on a file with stanzas %v: no passphrase prompt appeared (exit %d, %s)", c.Stanzas, res.code, trunc([]byte(res.stderr)))
+		}
+		if res.code != 0 || !bytes.Equal(got, plain) {
+			return pbt.Failf("C19/wrong-outcome", "age -d -i <protected ssh key> with the right passphrase on a file with stanzas %v: exit %d (%s)", c.Stanzas, res.code, trunc([]byte(res.stderr)))
+		}
+	default:
+		if res.code == 0 || rerr == nil {
+			return pbt.Failf("C19/unexpected-success", "age -d -i <protected ssh key> with a wrong passphrase exits %d", res.code)
+		}
+	}
+	return nil
+}
+
 func c19Gen(t *rapid.T) c19Case {
 	c := c19Case{Type: rapid.SampledFrom([]string{"ed25519", "ed25519", "rsa"}).Draw(t, "type"), Mismatched: rapid.Bool().Draw(t, "mismatched")}
 	c.CrossType = rapid.IntRange(0, 3).Draw(t, "crossType") == 0
@@ -294,5 +355,21 @@ func TestC19(t *testing.T) {
 		}
 		s.St.Exhaust("all two-call histories over 10 files x {right, wrong, empty passphrase} first answers; matching key file, mismatched key file of the same type, key file of the other SSH type (ssh-ed25519 identity)", int64(n))
 	}, check)
+	pbt.Each(s, "histories-cli", func(yield func(c19CLI)) {
+		n := 0
+		for _, sts := range [][]string{{"A"}, {"B"}, {"X"}, {"B", "A"}, {"X", "B", "A"}, {"A", "B"}, {"Acase"}, {"Abits"}, {"X", "B"}, {"otherTypeTagA"}} {
+			for _, a := range []string{"right", "wrong"} {
+				if a == "wrong" && !has(sts, "A") && n%2 == 0 {
+					n++
+					continue
+				}
+				if s.Mine(n) {
+					yield(c19CLI{Stanzas: sts, Answer: a})
+				}
+				n++
+			}
+		}
+		s.St.Exhaust("age -d -i <passphrase-protected ssh-ed25519 key> through a terminal on files with 10 stanza lists (own stanza at every position, other tags, look-alike tags, other types), right and wrong passphrase", int64(n))
+	}, func(c c19CLI) error { return c19CheckCLI(c, s.St) })
 	pbt.Rapid(s, "histories", s.N(60, 400), c19Gen, check)
 }
